@@ -304,8 +304,10 @@ def gen_file(rng, ids):
             clean = False
             s0 += rng.choice([d // 3, -(d // 3), d // 2]) if d > 1 else 0
         hf = fc if (fc is not None and (want_clean or rng.random() < 0.7)) else None
+        hq = list(ids.ext[ids.names[var]][2])
+        rng.shuffle(hq)  # the order of the qualifiers in a header is irrelevant for the id lookup
         recs.append({"hdr": {"var": var, "member": mem, "step": d, "start": s0, "stop": s1, "forecast": hf,
-                             "miss": xv(miss), "unit": rng.choice(P.UNITS)},
+                             "miss": xv(miss), "unit": rng.choice(P.UNITS), "quals": hq},
                      "evt": [] if binary else evt, "evs": [] if binary else [xv(x) for x in evs],
                      "_range": (a, b), "_vals": vals})
         stream += vals
@@ -449,21 +451,18 @@ def stream_reader(c, N, tmp):
 # stream 3: sequences of set / resize / write / read
 
 
-def gen_window(rng, st, avoid_known=True):
+def gen_window(rng, st):
     """a new (start, stop) for resize; returns (ns, ne, on_grid)"""
     d = st["dt"]
     if d is None:
-        T = st["times"]
-        cur = [t for t in T if st["start"] <= t <= st["stop"]]
-        i = 0 if (avoid_known or rng.random() < 0.5) else rng.randrange(len(cur))  # F27: later start
+        cur = st["times"]
+        i = rng.choice([0, 0, rng.randrange(len(cur))])
         j = rng.randrange(i, len(cur))
         if rng.random() < 0.1:
-            return cur[0] - 60, cur[j], True  # growing: rejected
+            return (cur[0] - 60, cur[j], True) if rng.random() < 0.5 else (cur[i], cur[-1] + 60, True)  # growing: rejected
         return cur[i], cur[j], True
     n = (st["stop"] - st["start"]) // d + 1
-    a = rng.choice([0, 0, 1, -1, 2, -3, n - 1, n, rng.randint(-4, n + 3)])
-    if avoid_known:
-        a = min(a, n)  # F26: window starting more than one step after the old end
+    a = rng.choice([0, 0, 1, -1, 2, -3, n - 1, n, n + 2, -(n + 3), rng.randint(-4, n + 5)])
     ns = st["start"] + a * d
     length = rng.choice([1, 1, 2, n, n + 1, rng.randint(1, n + 4)])
     ne = ns + (length - 1) * d
@@ -510,8 +509,8 @@ def stream_resize(c, N, tmp):
                 obs.append("raise")
                 if cur["dt"] is not None or (cur["start"] <= ns and ne <= cur["stop"]):
                     fails.append(("resize raised " + r[1], {"ns": ns, "ne": ne}))
-                continue
-            now = {"start": sec(ts.start_datetime), "stop": sec(ts.end_datetime),
+                break  # the object may be half-modified after a rejected call
+            now = {"start": sec(ts.start_datetime), "stop": sec(ts.end_datetime), "times": [sec(t) for t in ts.times],
                    "slots": [[{"var": ids.rank[k], "vals": [xv(x) for x in np.asarray(v, dtype=float)]}
                               for k, v in ts.items(m)] for m in range(len(cur["slots"]))]}
             obs.append(now)
@@ -526,11 +525,23 @@ def stream_resize(c, N, tmp):
                                 (isnan(a) != isnan(b)) or (not isnan(a) and a != b) for a, b in zip(exp, got)):
                             fails.append(("resize does not keep the values at the surviving stamps",
                                           {"old": old, "old_start": cur["start"], "ns": ns, "ne": ne, "got": got}))
-            elif cur["dt"] is None and ok_spec:
+            if cur["dt"] is not None and on_grid and ok_spec and \
+                    now["times"] != list(range(ns, ne + 1, cur["dt"])):
+                fails.append(("resize: the time stamps do not follow the new window", {"ns": ns, "ne": ne, "times": now["times"]}))
+            if cur["dt"] is None and ok_spec:
+                if now["times"] != [t for t in cur["times"] if ns <= t <= ne]:
+                    fails.append(("resize (nonequidistant): the time stamps do not follow the new window",
+                                  {"ns": ns, "ne": ne, "times": now["times"]}))
                 T = [t for t in cur["times"]]
                 for m, sl in enumerate(cur["slots"]):
                     for e in sl:
-                        old = dict(zip([t for t in T if cur["start"] <= t <= cur["stop"]], [float(unfr(x)) for x in e["vals"]]))
+                        ot = [t for t in T if cur["start"] <= t <= cur["stop"]]
+                        ov = [float(unfr(x)) for x in e["vals"]]
+                        if len(ot) != len(ov):
+                            fails.append(("resize (nonequidistant): values and stamps differ in number",
+                                          {"stamps": ot, "values": ov}))
+                            continue
+                        old = dict(zip(ot, ov))
                         exp = [old[t] for t in T if ns <= t <= ne]
                         got = [float(unfr(x)) for x in next(z for z in now["slots"][m] if z["var"] == e["var"])["vals"]]
                         if len(exp) != len(got) or any(
@@ -539,12 +550,12 @@ def stream_resize(c, N, tmp):
                                           {"ns": ns, "ne": ne, "got": got, "expected": exp}))
             if not on_grid:
                 ok_spec = False
-            cur = {**cur, "start": now["start"], "stop": now["stop"],
+            cur = {**cur, "start": now["start"], "stop": now["stop"], "times": now["times"],
                    "slots": [[{**e, "vals": next(z for z in now["slots"][m] if z["var"] == e["var"])["vals"]}
                               for e in sl] for m, sl in enumerate(cur["slots"])]}
         # finally: write and read back what was resized (equidistant, on grid, non-empty)
         back = None
-        if cur["dt"] is not None and ok_spec and cur["stop"] >= cur["start"]:
+        if ok_spec and cur["stop"] >= cur["start"] and obs and obs[-1] != "raise":
             def wr():
                 ts.write()
                 return P.real_to_store(pi.Timeseries(dc, d, "ts", binary=False), ids)
@@ -553,8 +564,7 @@ def stream_resize(c, N, tmp):
                 fails.append(("write/read after resize raised " + back[1], {}))
             else:
                 b = back[1]
-                n = (cur["stop"] - cur["start"]) // cur["dt"] + 1
-                exp_times = [cur["start"] + k * cur["dt"] for k in range(n)]
+                exp_times = cur["times"]
                 bad = None
                 if b["times"] != exp_times:
                     bad = "time stamps"
@@ -586,10 +596,10 @@ def stream_resize(c, N, tmp):
                     c.disagree("resize raise/value", case, mo, ob)
                     break
                 continue
-            got = {"start": mo["start"], "stop": mo["stop"],
+            got = {"start": mo["start"], "stop": mo["stop"], "times": mo["times"],
                    "slots": [sorted((e["var"], tuple(map(str, (P.canon_store({**mo, "slots": [[e]]})["slots"][0][0][2]))))
                                     for e in sl) for sl in mo["slots"]]}
-            imp = {"start": ob["start"], "stop": ob["stop"],
+            imp = {"start": ob["start"], "stop": ob["stop"], "times": ob["times"],
                    "slots": [sorted((e["var"], tuple(map(str, [("nan" if isnan(float(unfr(x))) else unfr(x)) for x in e["vals"]])))
                                     for e in sl) for sl in ob["slots"]]}
             if got != imp:
@@ -627,6 +637,7 @@ def run(c):
         M.stream_netcdf(c, c.n(40, 400), tmp)
         M.stream_param(c, c.n(80, 1000), tmp)
         M.stream_ids(c, c.n(80, 1000), tmp)
+        M.corpus(c, tmp)
         if not os.environ.get("VERIF_NO_PROBES"):  # development switch only
             M.probes(c, tmp)
     finally:
